@@ -73,7 +73,7 @@ def run(tier, nscripts):
                 outs[b] = d
         compared = 0
         sample = []
-        for section in ("STD", "STD17", "EXTRAS", "SMALLSET"):
+        for section in ("STD", "STD17", "EXTRAS", "SMALLSET", "THROW"):
             group = [b for b in builds if b in outs and offers(b, section)]
             if len(group) < 2:
                 continue
@@ -134,11 +134,11 @@ def run(tier, nscripts):
         except core.BuildError as e:
             inconc.append({"why": "SmallSet probe does not build at c++17: %s" % str(e)[-300:]})
         cov = {
-            "evaluations": nscripts * len(outs), "distinct_nontrivial": sum(1 for b in outs for s in ("STD", "STD17", "EXTRAS", "SMALLSET") if offers(b, s)) * min(nscripts, 8),
+            "evaluations": nscripts * len(outs), "distinct_nontrivial": sum(1 for b in outs for s in ("STD", "STD17", "EXTRAS", "SMALLSET", "THROW") if offers(b, s)) * min(nscripts, 8),
             "programs": nscripts, "builds": [bname(b) for b in builds], "builds_run": len(outs), "disagreements_checked": compared,
             "samples": sample or ["(no transcript)"],
             "rule": ("%d generated scripts (fixed seeds derived from VERIF_SEED, 60 operations each, 8 container kinds in the standard section, 4 in the extras section, "
-                     "3 SmallSet kinds, FlatSet node scripts) are run by every build of the matrix {c++11,14,17,20} x {extras, pedantic} x {assert, NDEBUG} x {-O0,-O2} "
+                     "3 SmallSet kinds, FlatSet node scripts, 3 vector kinds with an element whose k-th copy throws) are run by every build of the matrix {c++11,14,17,20} x {extras, pedantic} x {assert, NDEBUG} x {-O0,-O2} "
                      "(%d builds in this tier, all under UBSan); each section's transcript is compared byte for byte across all builds that offer it; feature probes "
                      "(detection idiom) and compile-must-fail probes decide absence. distinct = (build, section, script kind)" % (nscripts, len(builds))),
         }
